@@ -1,7 +1,7 @@
-// Assigning (or +=, -=, ...) a TENSOR to a dynamic seq view of a 1-D or 2-D TensorMap does not compile (scalar right-hand sides, fseq views and
-// maps of rank >= 3 do).  Cause: a view of a TensorMap is always the generic n-D TensorViewExpr (expressions/views/tensor_views_nd.h); its
+// Assigning (or +=, -=, ...) a TENSOR to a dynamic seq view of a 2-D TensorMap does not compile (scalar right-hand sides, fseq views and maps of
+// rank >= 3 do; the 1-D case had the same defect until /repo commit cbcda0a).  Cause: a view of a TensorMap is always the generic n-D TensorViewExpr (expressions/views/tensor_views_nd.h); its
 // operator=/+=/... (lines 381, 495, ...) build, for the noalias() branch, a `TensorViewExpr<Tensor<T,Rest...>,DIMS>(tmp, get_sequences())`
-// from a std::array<seq,DIMS>, but for DIMS = 1, 2 that type is the specialised 1-D/2-D Tensor view whose constructors take (Tensor&, seq[, seq]).
+// from a std::array<seq,DIMS>, but for DIMS = 2 that type is the specialised 2-D Tensor view whose constructor takes (Tensor&, seq, seq).
 // Also rejected on maps: m(Tensor<bool,...> mask) (TensorFilterViewExpr is only defined for Tensor), diag(map), lazy `map = A % B`.
 // g++ -std=c++14 -O2 -I/repo tensormap-seq-view-tensor-assign.cpp    -> error: no matching function for call to
 //     'TensorViewExpr<Tensor<double,2,3>,2>::TensorViewExpr(Tensor<double,2,3>&, std::array<seq,2>)'
